@@ -257,7 +257,7 @@ PROPS["C09"] = {
              "every subject within (effective depth - 1) hops is in the tree and nothing unreachable is; with depth not binding the subject-id leaves equal the subjects for which the reference AND the real check engine say allowed, and REST / gRPC expand equal the engine tree. "
              "mode 'faults': after every fault-free expansion the same expansion is repeated on the same stored state with the k-th storage call failing (every k when the expansion makes <= 6 calls, else 6 sampled; transient, persistent, serialization-conflict or context cancellation): a tree that is returned without an error must equal the fault-free tree. "
              "This is the thinnest simulation target of the claimed set: the randomness sources are the storage order and the fault position; no concurrency. non-trivial = some subject is >= 2 hops away; distinct = hash of (tuples, set, depths)."),
-    "probes": ["probe_depth_binding", "probe_depth_not_binding", "probe_tree_depends_on_storage_order", "probe_over_100_children", "fault_surfaced_as_error", "deadline_surfaced_as_error", "deadline_met_same_tree"],
+    "probes": ["probe_depth_binding", "probe_depth_not_binding", "probe_tree_depends_on_storage_order", "probe_over_100_children", "probe_relationships_of_a_removed_namespace", "fault_surfaced_as_error", "deadline_surfaced_as_error", "deadline_met_same_tree"],
     "probe_min_runs": 4000,
     "real": ["keto internal/expand.Engine (sequential), internal/x/graph visited set, expand REST/gRPC handlers, Mapper.ToTree, internal/persistence/sql GetRelationTuples paging, SQLite"], "stub": STUB_E,
     "fault_kinds": {"deadline": "every storage call takes 10 ms of simulated time and the request context expires inside the j-th call (or after the last one)", "transient": "k-th storage call of the expansion returns an error", "persistent": "k-th and every later call fail", "conflict": "k-th call fails with sqlcon.ErrConcurrentUpdate (the retryable serialization failure)", "ctx": "request context cancelled at the k-th call"},
